@@ -21,6 +21,14 @@ from .types import NeedsContract, OutsideSubset
 PROVED, REFUTED, UNKNOWN, ERROR = "proved", "refuted", "unknown", "error"
 
 
+_INNER: Any = None
+
+
+def _inner_discharge(i: int) -> OblResult:
+    v, ex, obls, key, env = _INNER
+    return v.discharge(ex, obls[i], key, env)
+
+
 def _has_q(f: z3.ExprRef) -> bool:
     from .symex import _has_quantifier
 
@@ -216,7 +224,7 @@ class Verifier:
                 obls = split_obls
             for r in outcomes:
                 obls.extend(self.outcome_obligations(ex, k, fi, env, old, r))
-            results = [self.discharge(ex, o, key, env) for o in obls]
+            results = self.discharge_all(ex, obls, key, env)
             # vacuity: the precondition must be satisfiable
             vs = z3.Solver()
             vs.set("timeout", 5000)
@@ -241,6 +249,19 @@ class Verifier:
             results = [OblResult(f"{key}/fault", key, "fault", "", "fault", ERROR, reason=meta["error"])]
         meta["seconds"] = round(time.time() - t0, 3)
         return results, meta
+
+    def discharge_all(self, ex: Exec, obls: list[Obligation], key: str, env: dict) -> list[OblResult]:
+        """Discharge the obligations of one function, in forked sub-processes when there are many."""
+        jobs = getattr(self, "inner_jobs", 1)
+        if jobs <= 1 or len(obls) < 60:
+            return [self.discharge(ex, o, key, env) for o in obls]
+        import multiprocessing as mp
+
+        global _INNER
+        _INNER = (self, ex, obls, key, env)
+        ctx = mp.get_context("fork")
+        with ctx.Pool(min(jobs, max(2, len(obls) // 12))) as pool:
+            return pool.map(_inner_discharge, range(len(obls)), chunksize=4)
 
     def outcome_obligations(self, ex: Exec, k: Contract, fi: FuncInfo, env: dict, old: State, r: Res) -> list[Obligation]:
         out: list[Obligation] = []
@@ -308,20 +329,31 @@ class Verifier:
             res.status = PROVED
             res.solver = "trivial"
             return res
-        s = z3.Solver()
-        # E-matching only: valid obligations are engineered to discharge by E-matching; with MBQI off a
-        # failing obligation ends in "unknown (incomplete quantifiers)" in milliseconds instead of a timeout
-        s.set("auto_config", False)
-        s.set("smt.mbqi", False)
-        s.set("timeout", self.timeout_ms)
-        for a in ex.spec.axioms():
-            s.add(a)
-        for a in smt.seq_axioms():
-            s.add(a)
-        for f in o.pc:
-            s.add(f)
-        s.add(z3.Not(o.goal))
-        r = s.check()
+        # E-matching only (MBQI off): valid obligations are engineered to discharge by E-matching, and a failing one
+        # ends in "unknown (incomplete quantifiers)" instead of a timeout.  A small portfolio of instantiation
+        # thresholds is tried in turn -- any "unsat" is a proof; measured: eager_threshold 2 discharges in
+        # 0.03-0.2 s what the default (10) needs 4-25 s for.
+        r = z3.unknown
+        s = None
+        for cfg, share in (({"smt.qi.eager_threshold": 2.0}, 0.5), ({"smt.qi.eager_threshold": 5.0, "smt.random_seed": 1}, 0.25), ({}, 0.25)):
+            s = z3.Solver()
+            s.set("auto_config", False)
+            s.set("smt.mbqi", False)
+            s.set("timeout", max(1000, int(self.timeout_ms * share)))
+            for kk, vv in cfg.items():
+                s.set(kk, vv)
+            for a in ex.spec.axioms():
+                s.add(a)
+            for a in smt.seq_axioms():
+                s.add(a)
+            for f in o.pc:
+                s.add(f)
+            s.add(z3.Not(o.goal))
+            r = s.check()
+            if r != z3.unknown:
+                break
+            if "incomplete" in s.reason_unknown() and not cfg:
+                break
         res.seconds = round(time.time() - t0, 4)
         if r == z3.unsat:
             res.status = PROVED
